@@ -10,6 +10,7 @@ import Autog.Model.SinkColoring
 import Autog.Model.NsPositioner
 import Autog.Model.WMedian
 import Autog.Model.Pipeline
+import Autog.Lemmas.HasCyclesTotal
 import Autog.Properties.C04
 /-! T-fun: the models run on the phase-boundary snapshots of real `Layout` runs; the result is compared,
     in canonical form, with the next snapshot. Driver side. -/
@@ -66,7 +67,9 @@ def tfunLayout (cfg : Cfg) (es : InEdges) (comps : List (List (Int × G))) (real
     -- phase 1
     if cfg.p1 ≤ 1 then
       match stageOf c 0, stageOf c 1 with
-      | some a, some b => out := out ++ [cmpG "T:phase1" (phase1 cfg.p1 a) b]
+      | some a, some b =>
+        out := out ++ [cmpG "T:phase1" (phase1 cfg.p1 a) b]
+        out := out ++ [("K:edgesWF", edgesWFb a && edgesWFb b, "an out-list points outside the node store")]
       | _, _ => pure ()
   for (c, ci) in comps.zipIdx do
     -- phase 2: LongestPath exactly; for both layerers the layer list is `buildLayers` of the node layers
